@@ -3,7 +3,7 @@
    ExtrOcamlBasic only; Z / positive / nat / Q stay the extracted inductive types. *)
 From Coq Require Import QArith.
 Require Import PPLV.Base.FM PPLV.Base.Sys PPLV.Base.Gens PPLV.Poly.PolyOps PPLV.Base.Sup.
-Require Import PPLV.Term.RankSpec PPLV.Term.Encode PPLV.Term.Check.
+Require Import PPLV.Term.RankSpec PPLV.Term.Encode PPLV.Term.Check PPLV.Term.Spaces.
 Require Extraction.
 Require Import ExtrOcamlBasic.
 Extraction Language OCaml.
@@ -15,6 +15,6 @@ Extraction "term.ml"
   assign_all_inequalities_approximation_2 shift_con
   fill_constraint_systems_MS ms_mip fill_constraint_system_PR fill_constraint_system_PR_original
   pr_mip pr_all pro_mip pro_all le_le_m1 le_lt_0
-  check_rank check_weak check_bound check_decr same_cons_b ms_space
+  check_rank check_weak check_bound check_decr same_cons_b ms_space pr_space pro_space
   Qcompare Qeq_bool Qle_bool inject_Z.
 Cd "../../coq".
